@@ -298,10 +298,9 @@ def r2_field_sets(run, w):
     for c in calls:
       n_calls += 1
       inc_def = _call_flag(c, c2d, "include_default")
-      inc_id = _call_flag(c, c2d, "include_id")
       run.ob(R2, q, short(c), "the old column's info is taken with include_default=True (every "
-             "modifiable key present, so a key that was empty can be compared and restored) and "
-             "without the id", inc_def is True and inc_id is False, fi=fn.fi, node=c,
+             "modifiable key present, so a key that was empty can be compared and restored)",
+             inc_def is True, fi=fn.fi, node=c,
              witness="without include_default the dict lacks %s when it was empty" % dropped)
   # (e) the undo of DocActions.ModifyColumn is that dict of the *old* column, restricted to the
   #     keys being modified
@@ -319,20 +318,26 @@ def r2_field_sets(run, w):
              for x in calls_in(e) if endswith(mc.name(x), "col_to_dict")]
       ok = len(src) == 1 and src[0].args and oldvar is not None and \
           text(src[0].args[0]) == oldvar
-      # restricted to keys present in col_info
-      flt = [x for nid in du.backward_slice([info]) for e in mc.cfg.nodes[nid].exprs
-             for x in ast.walk(e) if isinstance(x, ast.Compare) and len(x.ops) == 1 and
-             isinstance(x.ops[0], ast.In) and text(x.comparators[0]) == p_info]
-      ok = ok and bool(flt)
-  run.ob(R2, mc.qualname, desc, "the recorded inverse carries the old column's values for exactly "
-         "the keys being modified", ok, fi=mc.fi)
-  # (f) no-op test compares complete columns
-  cmp_ok = any(isinstance(n.stmt.test, ast.Compare) and len(n.stmt.test.ops) == 1 and
-               isinstance(n.stmt.test.ops[0], ast.Eq) and
-               {text(n.stmt.test.left), text(n.stmt.test.comparators[0])} == {newvar, oldvar}
-               for n in mc.cfg.nodes if n.kind == "if") if newvar and oldvar else False
-  run.ob(R2, mc.qualname, "if new == old: return", "the no-op shortcut compares whole schema "
-         "columns (all fields)", cmp_ok, fi=mc.fi)
+  run.ob(R2, mc.qualname, desc, "the recorded inverse carries the old column's values (taken from "
+         "the one col_to_dict(old, ...) call)", ok, fi=mc.fi)
+  # (f) a no-op shortcut, if there is one, compares complete columns
+  sw = E.schema_write_nodes(mc)
+  for n in mc.cfg.nodes:
+    if n.kind != "if" or n.id in mc.cfg.reach_after(sw):
+      continue
+    first = H.nodes_of_stmts(mc.cfg, n.stmt.body[:1])
+    r = mc.cfg.reach(first)
+    if not (mc.cfg.exit.id in r and not (r & sw)):
+      continue        # not an early return
+    mentioned = {x.id for x in ast.walk(n.stmt.test) if isinstance(x, ast.Name)}
+    if not (mentioned & {newvar, oldvar}):
+      continue
+    t = n.stmt.test
+    whole = isinstance(t, ast.Compare) and len(t.ops) == 1 and isinstance(t.ops[0], ast.Eq) and \
+        {text(t.left), text(t.comparators[0])} == {newvar, oldvar}
+    run.ob(R2, mc.qualname, "if %s: return" % short(t), "the no-op shortcut compares whole schema "
+           "columns (all fields), so a change of any one field is applied", whole, fi=mc.fi,
+           node=n.stmt)
   # (g) build_schema reads exactly the metadata fields that _updateColumnRecords translates
   bs = w.fn("schema.build_schema")
   ctors = [c for c in calls_in(bs.node) if endswith(dotted(c.func), "SchemaColumn")]
@@ -421,7 +426,7 @@ def _r2_update_translation(run, R2, w, mprops):
          "(set and unset)", ok, witness=wit, fi=fn.fi)
   # the ModifyColumn is issued whenever there is something to change
   mguard = [s for (s, fld) in H.guards_of(fn.node, mn.stmt) if isinstance(s, ast.If)]
-  ok = len(mguard) == 1 and text(mguard[0].test) == info
+  ok = len(mguard) <= 1 and all(text(g.test) == info for g in mguard)
   run.ob(R2, fn.qualname, "if %s: self.doModifyColumn(...)" % info,
          "the schema change is applied whenever the restricted update is non-empty", ok, fi=fn.fi)
   # colId -> RenameColumn(table, old, values['colId']) guarded by has_diff_value(values,'colId',..)
